@@ -519,7 +519,11 @@ def run(ctx):
                 "through BytesReader, StreamReader x 5 chunkings, open_dods_url x {app x 3 chunkings, requests, gzip} and, "
                 "per top-level sequence, SequenceProxy.__iter__ x 10 deliveries; a family whose LAST variable is each of "
                 "16 kinds (strings of length 0/4/8/5, Byte[4/8/5], zero extent, scalar, sequence, ...) so that the decoder's "
-                "final read is zero-length; a dataset is non-trivial when it has an array, a container or a sequence; "
+                "final read is zero-length; (value, representation) pairs: every type x 8 shapes and random values, each held "
+                "in up to 8 representations (dtype char incl. 8-byte integers/int8/bool, byte order, C/Fortran/strided/"
+                "reversed/offset/transposed/over-wide layouts, 0-d array/0-d view/numpy scalar/Python scalar/bytes), and records "
+                "of lazy sequences with every cell in a random form (numpy scalar or 0-d array of any dtype char of the type, "
+                "Python int/float/bool, str, numpy.str_, numpy.bytes_, bytes); a dataset is non-trivial when it has an array, a container or a sequence; "
                 "distinct by (declaration, data)")
     ctx.assumptions = ["numpy astype/tobytes/frombuffer behave as modelled (two's complement wrap, IEEE bits kept)",
                        "the DDS text is opaque to the theorems (C07); the separator hypothesis of C05_dds_embedded "
@@ -528,7 +532,10 @@ def run(ctx):
                        "model and compared only as error/ok"]
     ctx.proof_phase()
     explore(ctx, ctx.tier)
-    return ctx.finish(search=lambda c: explore(c, "thorough", search=True),
+    from props import c05_rep
+    c05_rep.explore(ctx, "representations", ctx.budget(250, 4000))
+    return ctx.finish(search=lambda c: (explore(c, "thorough", search=True),
+                                        c05_rep.explore(c, "representations-search", 3000)),
                       witnesses={"C01.lazy_type_peek": witness_lazy})
 
 
@@ -538,6 +545,9 @@ def replay(payload):
         print("nothing to replay: %s" % payload.get("no_longer_checks"))
         return False
     c = f["case"]
+    if "obj" in c or "cells" in c or "reps" in c or "recarray" in c:
+        from props import c05_rep
+        return c05_rep.replay_case(c)
     t = unpack_t(c["tmpl"])
     d = unpack_d(t, c["data"])
     tail = bytes.fromhex(c.get("tail", "x")[1:]) if isinstance(c.get("tail"), str) else b""
